@@ -112,6 +112,15 @@ def _do_event(w, ev, model, cfg, rec):
             txid = hashlib.sha256(b'c08|fund|%d|%s' % (seed, name.encode())).hexdigest()
             w.utxo_add(k.address, value, txid, n, confirmations=5)
             model.out[(txid, n)] = {'value': value, 'address': k.address, 'spent': False, 'conf': 5}
+        elif kind == 'fund_account1':
+            # a second account holding an output (its keys get ids between those of the first account's keys)
+            if 1 not in w.accounts():
+                w.new_account(account_id=1)
+            k = w.get_key(account_id=1)
+            model.n_added = getattr(model, 'n_added', 0) + 1
+            txid = hashlib.sha256(b'c08|utxo|%d|%d' % (seed, model.n_added)).hexdigest()
+            w.utxo_add(k.address, 20000, txid, 0, confirmations=5)
+            model.out[(txid, 0)] = {'value': 20000, 'address': k.address, 'spent': False, 'conf': 5}
         elif kind == 'send_pick':
             # ('send_pick', [positions in the sorted list of unspent outpoints], 'tuple' | 'inputobj')
             _, idxs, form = ev
@@ -244,10 +253,22 @@ def _do_event(w, ev, model, cfg, rec):
 
 
 def _observe(w):
-    """What a Wallet object reports."""
-    bal = w.balance()
-    utx = w.utxos()
+    """What a Wallet object reports.  balance() and utxos() answer for one account (the default one when none is
+    named) while keys() lists every account: everything is observed per account and for the default call."""
+    try:
+        accounts = sorted(w.accounts()) or [w.default_account_id]
+    except Exception:
+        accounts = [w.default_account_id]
     keys = w.keys()
+    per = {}
+    utx_all = []
+    for a in accounts:
+        multi = len(accounts) > 1
+        bal = w.balance(account_id=a) if multi else w.balance()
+        utx = w.utxos(account_id=a) if multi else w.utxos()
+        utx_all += utx
+        kb = {k.id: int(k.balance or 0) for k in keys if (k.account_id == a or not multi)}
+        per[a] = {'balance': bal, 'sum_utxos': sum(u['value'] for u in utx), 'sum_key_balances': sum(kb.values())}
     kb = {}
     for k in keys:
         kb[k.id] = int(k.balance or 0)
@@ -258,7 +279,10 @@ def _observe(w):
         except Exception as e:
             wk[k.id] = 'raise:' + type(e).__name__
     txs = sorted(t.txid for t in w.transactions(include_new=True))
-    return {'balance': bal, 'utxos': sorted((u['txid'], u['output_n'], u['value']) for u in utx),
+    dflt = w.balance()
+    return {'balance': dflt, 'default_account_balance': per.get(w.default_account_id, {}).get('balance'),
+            'per_account': per, 'n_accounts': len(accounts),
+            'utxos': sorted((u['txid'], u['output_n'], u['value']) for u in utx_all),
             'key_balances': kb, 'walletkey_balances': wk, 'txids': txs}
 
 
@@ -319,8 +343,17 @@ def _clip(x):
 def _invariants(who, ob, model, w, tag):
     devs = []
     su = sum(u[2] for u in ob['utxos'])
-    if ob['balance'] != su:
-        devs.append({'sig': 'balance_ne_sum_utxos|%s|after_%s' % (who, tag), 'detail': {'balance': ob['balance'], 'sum_utxos': su}})
+    for a, pa in sorted(ob['per_account'].items()):
+        if pa['balance'] != pa['sum_utxos']:
+            devs.append({'sig': 'balance_ne_sum_utxos|%s|after_%s' % (who, tag),
+                         'detail': {'account': a, 'balance': pa['balance'], 'sum_utxos': pa['sum_utxos']}})
+        if pa['sum_key_balances'] != pa['sum_utxos']:
+            devs.append({'sig': 'sum_key_balances_of_account_ne_sum_utxos|%s|after_%s' % (who, tag),
+                         'detail': {'account': a, 'sum_key_balances': pa['sum_key_balances'], 'sum_utxos': pa['sum_utxos']}})
+    if ob['balance'] != ob['default_account_balance']:
+        devs.append({'sig': 'balance_without_account_ne_balance_of_default_account|%s|after_%s' % (who, tag),
+                     'detail': {'balance()': ob['balance'], 'balance(default account)': ob['default_account_balance'],
+                                'accounts': ob['n_accounts']}})
     skb = sum(ob['key_balances'].values())
     if skb != su:
         devs.append({'sig': 'sum_key_balances_ne_sum_utxos|%s|after_%s' % (who, tag),
@@ -422,6 +455,10 @@ def run(ctx):
         cfgs.append({'kind': 'hd', 'wt': 'legacy', 'seed': seed, 'events': ev_pick + [['send_ext'], ['utxos_update']],
                      'prefix': fund3 + [['utxo_add_n', 'last', 30000, 'Q', 2]]})
         cfgs.append({'kind': 'ms22', 'wt': 'segwit', 'seed': seed, 'events': ev_pick, 'prefix': fund3})
+    # two accounts whose funded keys interleave in creation order
+    cfgs.append({'kind': 'hd', 'wt': 'segwit', 'seed': seed, 'prefix': [['utxo_add', 'first', 5000]],
+                 'events': [['fund_account1'], ['new_key'], ['utxo_add', 'last', 70000], ['send_ext'], ['reopen']] +
+                 ([] if q else [['sweep'], ['delete_last'], ['utxos_update']])})
     if q:
         # the nested multisig form (scripts stored with the transaction do not carry the threshold) with a reduced
         # alphabet; the thorough tier has it with the full one
